@@ -107,24 +107,26 @@ type Policy struct {
 
 // Result of one run.
 type Result struct {
-	Steps      int64
-	Switches   int64 // preemptive switches (EvSwitch with Next != Task)
-	Blocked    int64
-	GCs        int64
-	Deadlock   bool
-	Signature  uint64
-	Overlap    bool // >=2 tasks were inside an operation at the same time
-	SameKey    bool // >=2 tasks were inside operations of the same family at the same time
-	ColdOver   bool // overlap happened while some task was inside its first operation
-	InflightGC bool // a GC fault fired while >=1 other task was parked inside an operation
-	PanicOver  bool // set by harness through NotePanic while others were in flight
-	Unstalled  bool
-	Leaked     bool  // a goroutine spawned by the library was still blocked when every caller had returned
-	Spawned    int64 // goroutines spawned by the library during the run
-	ClockJumps int64
-	Events     []Event
-	Truncated  bool
-	StepsPerOp []int64 // indexed by op id
+	Steps       int64
+	Switches    int64 // preemptive switches (EvSwitch with Next != Task)
+	Blocked     int64
+	GCs         int64
+	Deadlock    bool
+	Signature   uint64
+	Overlap     bool // >=2 tasks were inside an operation at the same time
+	SameKey     bool // >=2 tasks were inside operations of the same family at the same time
+	ColdOver    bool // overlap happened while some task was inside its first operation
+	InflightGC  bool // a GC fault fired while >=1 other task was parked inside an operation
+	PanicOver   bool // set by harness through NotePanic while others were in flight
+	Unstalled   bool
+	Leaked      bool  // a goroutine spawned by the library was still blocked when every caller had returned
+	Spawned     int64 // goroutines spawned by the library during the run
+	ClockJumps  int64
+	TimeSkips   int64 // every task was blocked and simulated time advanced to the next timer
+	TimersFired int64
+	Events      []Event
+	Truncated   bool
+	StepsPerOp  []int64 // indexed by op id
 }
 
 type task struct {
@@ -386,6 +388,11 @@ func yslow(site uint32, kind int) {
 			clkNext++
 		}
 	}
+	if nTimers > 0 {
+		if now, _ := simNow(); now >= nextTimer {
+			fireDue()
+		}
+	}
 	preempt := false
 	switch pol.Kind {
 	case PolSeq:
@@ -531,6 +538,16 @@ func pickNext(forced bool) int32 {
 			n++
 		}
 	}
+	if n == 0 && advanceToNextTimer() {
+		// everybody is blocked but a timer is pending: simulated time passes
+		fireDue()
+		for i := int32(0); i < ntasks; i++ {
+			if eligible(i) {
+				cand[n] = i
+				n++
+			}
+		}
+	}
 	if n == 0 {
 		// release a stalled task if that is all that is left
 		for i := int32(0); i < ntasks; i++ {
@@ -580,11 +597,41 @@ func pickNext(forced bool) int32 {
 
 //go:norace
 func waitTurn(me int32) {
-	for turn != me {
+	// a goroutine belongs to the run (generation) in which it parked: a library goroutine
+	// left behind by an earlier run must never wake up as a task of a later one
+	g := runGen
+	for turn != me || runGen != g {
+		if runGen != g {
+			runtime.Gosched() // zombie of an earlier run: parked for good
+			continue
+		}
 		if me >= 0 && tasks[me].fire {
 			// a counterpart matched this task's pending channel operation: perform it now
 			// (the counterpart is blocked for real in the matching operation); the task
 			// itself stays parked
+			t := &tasks[me]
+			t.fire = false
+			f := t.waitFn
+			t.waitFn = nil
+			t.nWait = 0
+			f(t.fireIdx)
+			t.fired = true
+		}
+		runtime.Gosched()
+	}
+}
+
+// waitTurnGen is waitTurn for a goroutine that starts parked (its generation is the one
+// it was created in, which may already be over when it first gets to run).
+//
+//go:norace
+func waitTurnGen(me int32, g int64) {
+	for turn != me || runGen != g {
+		if runGen != g {
+			runtime.Gosched()
+			continue
+		}
+		if tasks[me].fire {
 			t := &tasks[me]
 			t.fire = false
 			f := t.waitFn
@@ -801,6 +848,15 @@ func lowestEligible(me int32) int32 {
 			return i
 		}
 	}
+	if !(me >= 0 && eligible(me)) && advanceToNextTimer() {
+		// everybody is blocked but a timer is pending: simulated time passes
+		fireDue()
+		for i := int32(0); i < ntasks; i++ {
+			if eligible(i) {
+				return i
+			}
+		}
+	}
 	for i := int32(0); i < ntasks; i++ {
 		if tasks[i].state == tStalled {
 			tasks[i].state = tRunnable
@@ -962,6 +1018,9 @@ func Fault() string { return simFault }
 
 var simFault string
 
+// runGen counts runs; see waitTurn.
+var runGen int64
+
 // simProcs is the value runtime.GOMAXPROCS(0) / runtime.NumCPU() have for the library in
 // this run (a per-run configuration knob: code that switches strategy on the number of
 // processors must be correct for every value).
@@ -983,8 +1042,8 @@ func CurTask() int {
 func Steps() int64 { return steps }
 
 //go:norace
-func taskMain(id int32, body func(id int)) {
-	waitTurn(id)
+func taskMain(id int32, gen int64, body func(id int)) {
+	waitTurnGen(id, gen)
 	body(int(id))
 	taskDone(id)
 }
@@ -1005,6 +1064,7 @@ func taskDone(id int32) {
 
 //go:norace
 func setup(n int, p Policy, nops int) {
+	runGen++
 	ntasks = int32(n)
 	pol = p
 	rng = p.Seed
@@ -1029,6 +1089,7 @@ func setup(n int, p Policy, nops int) {
 	nextPlain = 1 << 62
 	gcNext, scriptNext, pctNext, clkNext = 0, 0, 0, 0
 	onceReset()
+	timersReset()
 	herdPhase, stallArmed = false, false
 	pctPoints = pctBuf[:0]
 	switch p.Kind {
@@ -1095,6 +1156,8 @@ func begin(first int32) {
 func collect() Result {
 	clockBase += steps * 1000
 	r := res
+	r.TimersFired = timerFired
+	timerFired = 0
 	r.Steps = steps
 	r.Signature = sig
 	r.Events = make([]Event, nEvents)
@@ -1117,7 +1180,7 @@ func Run(n int, nops int, p Policy, body func(id int)) Result {
 	}
 	setup(n, p, nops)
 	for i := 0; i < n; i++ {
-		go taskMain(int32(i), body)
+		go taskMain(int32(i), runGen, body)
 	}
 	begin(firstTask())
 	return collect()
